@@ -37,7 +37,11 @@ type PeerStatus struct {
 type ConnectednessManager struct {
 	peerState  map[peer.ID]*PeerStatus
 	groupState map[string]*GroupStatus
-	muState    sync.Mutex
+
+	// muState protects the whole state and is also the lock of every group's notify
+	// condition: a state change and the broadcast that announces it are made in one
+	// critical section, and a waiter compares and registers in one critical section.
+	muState sync.Mutex
 }
 
 func NewConnectednessManager() *ConnectednessManager {
@@ -55,14 +59,12 @@ func (m *ConnectednessManager) AssociatePeer(group string, peer peer.ID) {
 	sg := m.getGroupStatus(group)
 	sp := m.getPeerStatus(peer)
 
-	sg.notify.L.Lock()
 	if _, ok := sg.peers[peer]; !ok {
 		// we got a new peer, update and signal an update
 		sg.peers[peer] = sp
 		sp.groups[group] = sg
 		sg.notify.Broadcast()
 	}
-	sg.notify.L.Unlock()
 }
 
 // UpdateState update peer current connectedness state
@@ -85,10 +87,8 @@ func (m *ConnectednessManager) UpdateState(peer peer.ID, update ConnectednessTyp
 func (m *ConnectednessManager) WaitForConnectednessChange(ctx context.Context, gkey string, current PeersConnectedness) ([]peer.ID, bool) {
 	m.muState.Lock()
 	sg := m.getGroupStatus(gkey)
-	m.muState.Unlock()
 
 	ok := true
-	sg.notify.L.Lock()
 	var updated []peer.ID
 	for ok {
 		// check if there are some diff between local state and the current state
@@ -97,11 +97,11 @@ func (m *ConnectednessManager) WaitForConnectednessChange(ctx context.Context, g
 		}
 
 		// wait until there is an update on this group or context expire
-		// unlock notify locker
+		// (Wait releases muState while sleeping and takes it again before returning)
 		ok = sg.notify.Wait(ctx)
 	}
 
-	sg.notify.L.Unlock()
+	m.muState.Unlock()
 
 	return updated, ok
 }
@@ -111,7 +111,7 @@ func (m *ConnectednessManager) getGroupStatus(gkey string) *GroupStatus {
 	if !ok {
 		s = &GroupStatus{
 			peers:  make(map[peer.ID]*PeerStatus),
-			notify: notify.New(&sync.Mutex{}),
+			notify: notify.New(&m.muState),
 		}
 		m.groupState[gkey] = s
 	}
@@ -129,9 +129,8 @@ func (m *ConnectednessManager) getPeerStatus(peer peer.ID) *PeerStatus {
 	return s
 }
 
+// updateStatus must be called with muState held
 func (m *ConnectednessManager) updateStatus(group *GroupStatus, current PeersConnectedness) []peer.ID {
-	m.muState.Lock()
-
 	updated := []peer.ID{}
 	for peer := range group.peers {
 		if ourPeer, ok := m.peerState[peer]; ok {
@@ -145,8 +144,6 @@ func (m *ConnectednessManager) updateStatus(group *GroupStatus, current PeersCon
 			updated = append(updated, peer)
 		}
 	}
-
-	m.muState.Unlock()
 
 	return updated
 }
